@@ -148,8 +148,10 @@ def run_case(case):
                 ok_calls = len(dr) == 2 and all(d[0] == 'uniform' for d in dr) and \
                     all(tuple(d[1]) == (0, 1, n) and not d[2] for d in dr)
                 if not ok_calls:
-                    r.violation(f'{sig}:draw-protocol', f'{fam} theta={th}: sample({n}) made draws '
-                                f'{[(d[0], d[1], d[2]) for d in dr]!r}, expected two uniform(0,1,{n})', case=case)
+                    # the uniforms are drawn in another (possibly equally valid) way: the exact identity does not apply;
+                    # the closure mode (real generator, DKW bands) still decides the distributional clauses
+                    r.hit('protocol-changed')
+                    r['sample'] = {'mode': mode, 'family': fam, 'theta': th, 'note': 'draw protocol changed'}
                     return r
                 v, c = np.asarray(dr[0][3]), np.asarray(dr[1][3])
                 if not np.array_equal(np.asarray(out)[:, 1], v):
@@ -182,9 +184,17 @@ def run_case(case):
         n = k * k
         cop = make_biv(fam, th)
         it = iter(answers)
-        with seams.seam(script={'uniform': lambda lo, hi, size: next(it)}) as log:
+        used = []
+        with seams.seam(script={'uniform': lambda lo, hi, size: (used.append(1), next(it))[1]}) as log:
             r.tr()
-            out = np.asarray(cop.sample(n))
+            try:
+                out = np.asarray(cop.sample(n))
+            except StopIteration:
+                out = None
+        if out is None or len(used) != 2:
+            r.hit('protocol-changed')            # the sampler does not ask for exactly two uniform vectors: see closure mode
+            r['sample'] = {'mode': mode, 'family': fam, 'theta': th, 'note': 'draw protocol changed'}
+            return r
         if not _shape_ok(r, out, n, sig, case, fam, th):
             return r
         ref = Ref(fam, th)
@@ -228,10 +238,24 @@ def run_case(case):
         m = A.midpoints(k)
         Vg, Cg = np.meshgrid(m, m, indexing='ij')
         it = iter([Vg.ravel(), Cg.ravel()])
-        with seams.seam(script={'uniform': lambda lo, hi, size: next(it)}):
+        used = []
+        scripted = True
+        with seams.seam(script={'uniform': lambda lo, hi, size: (used.append(1), next(it))[1]}):
             r.tr()
-            out = np.asarray(cop.sample(k * k))
+            try:
+                out = np.asarray(cop.sample(k * k))
+            except StopIteration:
+                out = None
         thf = float(cop.theta)
+        if out is None or len(used) != 2:
+            # draw protocol changed: decide on a seeded real sample with DKW / Hoeffding bands instead
+            r.hit('protocol-changed')
+            cop.set_random_state(11)
+            out = np.asarray(cop.sample(4000))
+            if _shape_ok(r, out, 4000, sig, case, fam, thf):
+                _stat_checks(r, cop, out, sig, case, fam, thf, 0.052, 0.15, 0.052, 'fitted', model_tau=float(cop.tau))
+            r.state(('fitted', fam, tau))
+            continue
         if not _shape_ok(r, out, k * k, sig, case, fam, thf):
             return r
         _bracket_rows(r, Ref(fam, thf), out, Vg.ravel(), Cg.ravel(), sig, case, fam, thf, limit=40)
